@@ -102,10 +102,10 @@ func c06Step(twin bool) {
 		switch req.code {
 		case slayers.SCMPCodeInvalidPath:
 			verif.Cover("scmp-invalid-path")
-			verif.Assert("invalid-path-only-for-forbidden-pair", u.external() && !xover)
+			verif.Assert("invalid-path-only-within-segment", !xover)
 		case slayers.SCMPCodeInvalidSegmentChange:
 			verif.Cover("scmp-invalid-segment-change")
-			verif.Assert("invalid-segment-change-only-at-change", u.external() && xover)
+			verif.Assert("invalid-segment-change-only-at-change", xover)
 		}
 	}
 }
